@@ -15,6 +15,7 @@ pub proof fn axiom_str_obeys()
 pub assume_specification [std::string::String::into_boxed_str] (s: std::string::String) -> (r: std::boxed::Box<str>)
     ensures r@ == s@;
 pub assume_specification<T, U, F: FnOnce(T) -> U> [std::option::Option::<T>::map_or] (o: Option<T>, d: U, f: F) -> (r: U)
+    requires o is Some ==> f.requires((o->0,)),
     ensures o is None ==> r == d, o is Some ==> f.ensures((o->0,), r);
 pub assume_specification<T, A> [<std::vec::Vec<T, A> as std::convert::AsRef<[T]>>::as_ref] (v: &std::vec::Vec<T, A>) -> (r: &[T])
     where A: std::alloc::Allocator,
@@ -22,6 +23,7 @@ pub assume_specification<T, A> [<std::vec::Vec<T, A> as std::convert::AsRef<[T]>
 pub assume_specification [<str as std::convert::AsRef<str>>::as_ref] (s: &str) -> (r: &str)
     ensures r@ == s@;
 pub assume_specification<T, F: FnOnce(T) -> bool> [Option::<T>::is_some_and] (o: Option<T>, f: F) -> (r: bool)
+    requires o is Some ==> f.requires((o->0,)),
     ensures o is None ==> !r, o is Some ==> f.ensures((o->0,), r);
 // A-STD (trusted): model of std::str::pattern::Pattern for the two pattern types the code base uses (char, &str)
 pub uninterp spec fn pat_is_char<P>() -> bool;
